@@ -94,4 +94,33 @@ def exec (sys : Sys S C Ev Er O T) (w : World C Ev Er O T) (c : C) : World C Ev 
 def logged (sys : Sys S C Ev Er O T) (w : World C Ev Er O T) (c : C) (k : Nat) : Bool :=
   (crashAt sys w c k).log.length > w.log.length
 
+/-! ### Histories of requests with faults
+
+A request either runs to completion or is cut at some `k` – by a crash followed by a restart,
+or by a single failed write on an instance that lives on.  In both cases what is persistent
+afterwards is `crashAt` (a failed listener or command write aborts the command, store.rs
+`execute_opt_command`), and the in-memory state is the replay of the log (the cache is only
+updated after the command record was stored). -/
+
+def runHist (sys : Sys S C Ev Er O T) (w : World C Ev Er O T) :
+    List (C × Option Nat) → World C Ev Er O T
+  | [] => w
+  | (c, none) :: h => runHist sys (exec sys w c) h
+  | (c, some k) :: h => runHist sys (crashAt sys w c k) h
+
+/-- The requests of a history whose record reached the audit log (completed ones, and cut
+ones whose cut came after the record was written). -/
+def survivors (sys : Sys S C Ev Er O T) (w : World C Ev Er O T) :
+    List (C × Option Nat) → List C
+  | [] => []
+  | (c, none) :: h => c :: survivors sys (exec sys w c) h
+  | (c, some k) :: h =>
+    if logged sys w c k then c :: survivors sys (crashAt sys w c k) h
+    else survivors sys (crashAt sys w c k) h
+
+/-- A run without faults. -/
+def runClean (sys : Sys S C Ev Er O T) (w : World C Ev Er O T) (cs : List C) :
+    World C Ev Er O T :=
+  cs.foldl (exec sys) w
+
 end KM.Fault
